@@ -35,10 +35,12 @@ MkArgs(s, ds) == [i \in 1..Len(ds) |-> ArgVal(ds[i], IF IsParam(ParamOf(s, i)) T
 OneSpecs == {[ps |-> <<p>>, var |-> NoParam, tcb |-> t, icb |-> i, rr |-> r] : p \in Params, t \in Tcbs, i \in Icbs, r \in BOOLEAN}
             \cup {[ps |-> <<>>, var |-> p, tcb |-> t, icb |-> i, rr |-> r] : p \in Params, t \in Tcbs, i \in Icbs, r \in BOOLEAN}
 ThinCb(s) == Thorough \/ (s.tcb \in {"okT", "panic"} /\ s.icb \in {"conf", "nonconf", "unknown"} /\ s.rr)
+\* a RefineResult that states "null": meaningful only for implementations whose every result is unknown (anything else is the function author's error)
+NullRefined(S0) == {s @@ [rrk |-> "null"] : s \in {x \in S0 : x.rr /\ x.icb \in {"unknown", "err"}}}
 \* derived functions (WithNewDescriptions, Unpredictable, Proxy) of the string-parameter specifications
 Wraps == {"redesc", "unpred", "proxy"}
 Wrapped(S0) == {s @@ [wrap |-> "none"] : s \in S0} \cup {s @@ [wrap |-> w] : s \in {x \in S0 : \A i \in 1..Len(x.ps) : x.ps[i].ty = TStr}, w \in Wraps}
-OneLines == {[spec |-> s, dss |-> SetToSeq(SeqsUpTo(Descs, IF IsParam(s.var) THEN 2 ELSE 1) \cup {<<"conf", "conf">>})] : s \in Wrapped({x \in OneSpecs : ThinCb(x) /\ (IsParam(x.var) => x.var.ty = TStr \/ TRUE)})}
+OneLines == {[spec |-> s, dss |-> SetToSeq(SeqsUpTo(Descs, IF IsParam(s.var) THEN 2 ELSE 1) \cup {<<"conf", "conf">>})] : s \in Wrapped({x \in OneSpecs : ThinCb(x)} \cup NullRefined({x \in OneSpecs : ThinCb(x)}))}
 \* the full product, sampled
 POpt == Params \cup {NoParam}
 SampleSpace == [p1 : POpt, p2 : POpt, var : POpt, tcb : Tcbs, icb : Icbs, rr : BOOLEAN, ds : SeqsUpTo(Descs, 3), wrap : Wraps \cup {"none"}]
